@@ -150,6 +150,16 @@ def _space(chk):
         ok = bool(seqs) and all(s[-2:] == [("pca", i, "transform_components"), ("whitener", i, "transform_components")] for s in seqs)
         chk.check(ok, "SPACE.stored", fit, node, construct=f"components{i} stored after pca{i}.transform_components -> whitener{i}.transform_components",
                   why="the rotated vectors are not stored in the whitened PC space in which transform projects")
+        # ... and they were rotated in physical space: each field's vectors are lowered through BOTH pattern inverses
+        # (whitener, then pca) before the rotation; a path with only one of them rotates vectors of mixed spaces
+        lowered = all(len(s) >= 4 and s[0][0] == "whitener" and s[0][2] == "inverse_transform_components" and s[1][0] == "pca" and s[1][2] == "inverse_transform_components"
+                      and s[0][1] == s[1][1] for s in seqs)
+        own = any(s == [("whitener", i, "inverse_transform_components"), ("pca", i, "inverse_transform_components"), ("pca", i, "transform_components"),
+                        ("whitener", i, "transform_components")] for s in seqs)
+        chk.check(bool(seqs) and lowered and own, "SPACE.stored.round", fit, node,
+                  construct=f"components{i}: whitener.inverse -> pca.inverse -> rotation -> pca{i}.transform -> whitener{i}.transform",
+                  why=f"the vectors of a field do not pass whitener.inverse_transform_components -> pca.inverse_transform_components before the rotation "
+                      f"(stage sequences found: {seqs[:3]}): loadings of different spaces are rotated together")
 
 
 # ----------------------------------------------------------------------------
@@ -239,6 +249,10 @@ def _agree(chk):
             got = _factor_keys_transform(tf, tr, mine)
             want = _factor_keys_fit(ff, fit, sk)
             chk.require(len(want) >= 2, f"{cname}._fit_algorithm: factors of the {sk} chain not recognised ({sorted(want)})")
+            for op, recv, key in sorted(got - want):
+                chk.violation("AGREE.factor.extra", tr, tr.node, construct=f"{cls.name}.{trname}: {op} by {recv}[{key!r}] (not applied by fit to {sk})",
+                              why=f"transform applies {op} by {recv}[{key!r}] to the {sk} chain but fit does not apply it to the stored scores: "
+                                  "transform(training data) differs from the stored scores by that factor")
             for op, recv, key in sorted(want):
                 ok = (op, recv, key) in got
                 other = [g for g in got if g[1:] == (recv, key)]
